@@ -5,14 +5,14 @@ ROOT = os.path.dirname(os.path.dirname(os.path.abspath(__file__)))
 
 P = {
  "C01": dict(tech="property-based testing: generated colours over a macro-generated type-pair matrix; round-trip, commutation (metamorphic) and alpha-transparency oracles in a cartesian embedding",
-             text="Generated-input exploration of every existing ordered pair of the conversion group (f32 and f64, with and without Alpha): A->B->A round trip, direct vs. via-intermediate commutation, bitwise alpha transparency; tolerances by path tier (1e-10 / 2e-5 / 6e-4; f32 2e-3 after a conditioning filter), replaced by a measured-conditioning bound where a case exceeds its tier; every intermediate space of the 51-space matrix. No absence claim.",
+             text="Generated-input exploration of every existing ordered pair of the conversion group (f32 and f64, with and without Alpha): A->B->A round trip, direct vs. via-intermediate commutation, bitwise alpha transparency; tolerances by path tier (1e-10 / 2e-5 / 6e-4; f32 2e-3 after a conditioning filter), replaced by a measured-conditioning bound where a case exceeds its tier; every intermediate space of the 85-space matrix (RGB standards, luma standards, every built-in white point); three user-defined types converted through #[derive]. No absence claim.",
              note="Trusts the harness' embedding and the independent f64 reference used to place source colours; tolerances calibrated on the pinned tree; domain rules (knee sliver, L* < 1e-5 black flush, hexcone representability) in DESIGN 0.3.", ref="4/C01"),
  "C02": dict(tech="property-based differential testing against independent f64 reference formulas written from the publications, with threshold-straddling generators",
              text="Every directly implemented conversion step is compared with an independently written f64 reference (CIE 15, RGB standards with derived matrices, hexcone HSL/HSV/HWB, Ottosson ok_color, HSLuv reference) on generated and threshold-straddling inputs.",
-             note="The references are the trusted base; they are self-checked at start-up against published sample values (Lindbloom's sRGB matrix, Ottosson's Oklab examples, Lab / HSLuv / Okhsl / Okhsv of sRGB red). Direct conversions are found mechanically: the 208 of 513 table entries for which a published relation exists.", ref="4/C02"),
+             note="The references are the trusted base; they are self-checked at start-up against published sample values (Lindbloom's sRGB matrix, Ottosson's Oklab examples, Lab / HSLuv / Okhsl / Okhsv of sRGB red). Direct conversions are found mechanically: the table entries (of 601) for which a published relation exists.", ref="4/C02"),
  "C03": dict(tech="property-based testing with a model clamp derived from the public min/max accessors; far-out mixed-direction generators",
              text="Generated far-out-of-range colours for every Clamp/IsWithinBounds implementor (bare, Alpha, slices, integer components): clamp is within bounds, identity on in-bounds input, idempotent, equals the model clamp; from_color == unclamped+clamp, try_from_color Ok iff in bounds.",
-             note="Model clamp written from the documented accessors; Okhsv's documented 1e-6 saturation slack is part of the model.", ref="4/C03"),
+             note="Model clamp written from the documented accessors; Okhsv's documented 1e-6 saturation slack is part of the model. Integer-component types and slices of SIMD colours included; the harness builds with overflow checks so an overflow inside palette is a reported panic.", ref="4/C03"),
  "C04": dict(tech="property-based testing of pointer/length/capacity/bit equality over generated buffers; Miri and ASan-libFuzzer as execution oracles in the thorough tier",
              text="Generated buffers (length and capacity independent, arbitrary bit patterns) through every cast form: same address, exact length/capacity scaling, declared field order, bitwise round trip, rejection iff length/capacity not a multiple with the buffer handed back.",
              note="Layout table written from the struct definitions; memory-safety half decided only by the Miri/ASan stages on the generated cases.", ref="4/C04"),
@@ -20,7 +20,7 @@ P = {
              text="All f32 bit patterns through the five float->integer LUT encoders (no out-of-range index via the palette_verif hook, monotone, saturating, |code - curve*MAX| < 0.6, exact away from ties), every code through the decoders, float curves against the standards' formulas, mutual inverse, monotone apart from the <1e-6 knee step.",
              note="Reference curves written from the standards in f64; f64 encoder inputs are sampled, not enumerated.", ref="4/C05"),
  "C06": dict(tech="exhaustive enumeration of all 2^32 f32 bit patterns for all five unsigned targets and of all u8/u16(/u32) sources; generated boundary/tie/special f64, u64 and u128 values; exact integer oracle",
-             text="Exhaustive over f32 sources and 8/16(/32)-bit integer sources, generated search elsewhere: saturation, nearest-integer within one rounding of the product, monotonicity against the neighbouring representable value, exact widening, widen/narrow and int->float->int identities for all 42 format pairs.",
+             text="Exhaustive over f32 sources and 8/16(/32)-bit integer sources, generated search elsewhere: saturation, nearest-integer within one rounding of the product, monotonicity against the neighbouring representable value, exact widening, widen/narrow and int->float->int identities for all 42 format pairs; into_format / from_format of every colour type (bare and Alpha) field by field.",
              note="Oracle arithmetic in f64/u128 written in the harness; f64/u64/u128 sources are sampled with boundary-weighted generators.", ref="4/C06"),
  "C07": dict(tech="complete enumeration of the boundary lattice per type plus generated in-range colours through every conversion pair, operator, blend and difference under catch_unwind; finiteness oracle",
              text="The property's own boundary lattice (each component at min/max/zero/+-1e-9 range/mid) is enumerated completely for every type and every existing conversion pair, operator, blend mode and difference measure, f32 and f64; oracle: finite components, no panic.",
@@ -29,13 +29,13 @@ P = {
              text="Generated source/backdrop colours and alphas in [0,1]^8 (branch points weighted) through 11 blend modes and 6 Porter-Duff operators for opaque, Alpha and PreAlpha inputs; compared with the W3C formulas, range, opaque reduction, over/transparent identities, symmetry, premultiply round trip.",
              note="W3C formulas re-implemented in f64 in the harness.", ref="4/C08"),
  "C09": dict(tech="property-based differential testing against an independent Sharma CIEDE2000 reference and closed forms; metric laws; structured pair generators at hue discontinuities",
-             text="Generated colour pairs (hues straddling 0/360, achromatic, near-180 excluded as stated) compared with Sharma's CIEDE2000 reference, closed forms for DeltaE/HyAB/improved variants, polar == rectangular, non-negativity, symmetry, identity, WCAG contrast range and predicates.",
+             text="Generated colour pairs (hues straddling 0/360, achromatic, near-180 excluded as stated) compared with Sharma's CIEDE2000 reference, closed forms for DeltaE/HyAB/improved variants, polar == rectangular, non-negativity, symmetry, identity, WCAG contrast range and predicates (current and deprecated trait, 21 types).",
              note="Sharma reference and WCAG luminance re-implemented in f64 and self-checked against Sharma's 34 published pairs.", ref="4/C09"),
  "C10": dict(tech="property-based testing of algebraic laws and bitwise variant agreement (assign / slice / Alpha / by-value) for every operator trait implementor",
              text="Generated colours and factors in a superset of [-1,2]: mix end points, clamped factor, betweenness, shorter hue arc; lighten/saturate monotone toward the limit, range, other components untouched, darken == lighten(-x); assign/slice/Alpha forms bitwise equal to the by-value form.",
              note="Operator laws taken from the trait documentation.", ref="4/C10"),
  "C11": dict(tech="exhaustive enumeration of every f32 angle with |x| <= 2^20 and all 8-bit hues, generated f64 angles; exact modular arithmetic oracle",
-             text="All f32 bit patterns up to 2^20 in magnitude for normalisation range and congruence, integer and dyadic angles for equality under whole turns, cartesian round trip on a dense circle, all 256 8-bit hues, for the hue types.",
+             text="All f32 bit patterns up to 2^20 in magnitude for normalisation range and congruence, integer and dyadic angles for equality under whole turns, cartesian round trip on a dense circle, all 256 8-bit hues, every operator form (hue/scalar on either side, assigning, saturating) and float conversions, for the hue types.",
              note="Exact residues computed in f64/i128 in the harness.", ref="4/C11"),
  "C12": dict(tech="exhaustive enumeration (2^24 hex colours, packed words, all strings of <=4 symbols) plus generated strings against a model parser; libFuzzer target in the thorough tier",
              text="All 2^24 Rgb<u8> through hex formatting and parsing, packed integers for the four RGBA and two luma orders, every SVG name and near misses against the text file, and strings over an adversarial alphabet against a model of the documented grammar ('#'? HEX{n}); never a panic.",
@@ -44,7 +44,7 @@ P = {
              text="Generated buffers and programs over {deref, mutate, then_into, into_unclamped/clamped_guard, restore, drop, forget} for a closed universe of layout-compatible types, compared bitwise with plain out-of-place conversion; same address/length/capacity.",
              note="Reference model = Vec + ordinary from_color/from_color_unclamped.", ref="4/C13"),
  "C14": dict(tech="complete enumeration of the finite configuration axes (RGB standards, white-point pairs, cone matrices) with generated grey levels and XYZ colours against independent published tables",
-             text="Every RGB standard, white point and ordered adaptation pair x Bradford/von Kries/XYZ scaling: white -> white point -> L*=100/zero chroma/Oklab(1,0,0)/CAM16 J=100, greys stay neutral, matrices are mutual inverses and equal the matrix derived from the primaries, adaptation maps white to white, identity and round trip.",
+             text="Every RGB standard, white point and ordered adaptation pair x Bradford/von Kries/XYZ scaling: white -> white point -> L*=100/zero chroma/Oklab(1,0,0)/CAM16 J=100, greys stay neutral, matrices are mutual inverses and equal the matrix derived from the primaries, adaptation maps white to white, identity and round trip; user-defined white points with Y != 1.",
              note="White points and primaries re-entered from the publications in the harness.", ref="4/C14"),
  "C15": dict(tech="property-based testing with dense hue/saturation/lightness grids and gamut-surface RGB generators; containment and round-trip oracles",
              text="Generated and gridded in-bounds colours of the seven gamut-bounded cylindrical spaces convert into [0,1]^3 within stated per-space tolerances; in-gamut RGB converts within bounds and back to the same colour.",
@@ -53,13 +53,13 @@ P = {
              text="Generated colours and viewing conditions (luminances, surround, discounting, static/dynamic white): XYZ->CAM16->XYZ for the full and six partial types, partial == full attributes, UCS Jab<->Jmh<->Jmh lossless, forward model vs. Li et al.'s equations.",
              note="CAM16 reference in the original Li et al. form written in the harness.", ref="4/C16"),
  "C17": dict(tech="property-based differential testing of SIMD lanes against scalar results with independently generated lanes; permutation metamorphism; mask semantics",
-             text="Lanes filled independently (different branches per lane) for f32x4/f32x8/f64x2/f64x4: lane i == scalar op on input i (bitwise where no approximate kernel is involved), lane permutation commutes, pack/unpack identity, mask compare/select lane-wise, every numeric / angle trait method of the vector types lane by lane, f32 vs f64 agreement; 2230 generated (vector type, conversion or operator) entries.",
+             text="Lanes filled independently (different branches per lane) for f32x4/f32x8/f64x2/f64x4: lane i == scalar op on input i (bitwise where no approximate kernel is involved), lane permutation commutes, pack/unpack identity, mask compare/select lane-wise, every numeric / angle trait method of the vector types lane by lane, f32 vs f64 agreement; 2644 generated (vector type, conversion or operator, incl. assigning forms) entries.",
              note="f32 SIMD tolerance reflects wide's approximate reciprocal/transcendentals (DESIGN 4/C17).", ref="4/C17"),
  "C18": dict(tech="model-based stateful property testing: generated operation sequences against Vec<Color>; libFuzzer (ASan) target with the same oracle and a Miri stage in the thorough tier",
              text="Generated programs over push/pop/extend/collect/clear/drain/get/get_mut/iter/iter_mut/rev/len for colour types with and without hue and alpha, compared step by step with a plain Vec of colours (contents, lengths, yielded items, panics).",
              note="Reference model = Vec<Color>.", ref="4/C18"),
  "C19": dict(tech="property-based testing over RNG seeds and generated end points; fixed-seed Kolmogorov-Smirnov statistics for volume uniformity",
-             text="Standard-distribution samples are within bounds; uniform samplers stay between the ends (hue on the arc, HWB via equivalent HSV); cone/bicone volume uniformity decided by KS statistics of the transformed variates with fixed seeds and a wide margin.",
+             text="Standard-distribution samples are within bounds; uniform samplers stay between the ends (hue on the arc, HWB via equivalent HSV; Alpha-wrapped samplers for four alpha formats incl. coincident ends); cone/bicone volume uniformity decided by KS statistics of the transformed variates with fixed seeds and a wide margin.",
              note="Statistical clause decided at fixed seeds (pure function of tree + VERIF_SEED); residual false-alarm probability < 1e-6 per seed.", ref="4/C19"),
  "C20": dict(tech="property-based round-trip testing through serde_json, RON and an in-harness compact sequence format; shape oracle on the serialized value",
              text="Generated colours of every serialisable type (bare, Alpha, PreAlpha) through JSON, RON and a compact non-self-describing format: bitwise round trip, flat shape with alpha at the same level, bare-number hue, no metadata keys, optional alpha helpers, as_array/as_uint helpers.",
